@@ -176,7 +176,7 @@ func vfHalBoot(c vfHalCase) *vfBootOut {
 		case 1:
 			in.drv = &vfRecTTY{vfBase: base}
 		case 2:
-			in.drv = tty.NewVT(4, 2)
+			in.drv = &vfTeeVT{VT: tty.NewVT(4, 2)}
 		case 3:
 			in.drv = &vfOther{base}
 		}
@@ -357,23 +357,15 @@ func vfHalRun(run *verifrt.Run, c vfHalCase) {
 			report(class, desc)
 		}
 		run.Distinct(fmt.Sprintf("rec early=%d n=%d %s", c.PreLog, len(wantActive), pos))
-	case *tty.VT:
-		// Differential reference: boot the same case with every real terminal replaced by a recorder,
-		// feed what the recorder received to a fresh real terminal on an identical console.
+	case *vfTeeVT:
+		// The shipped terminal behind a tee that records every byte it is handed (before or after it is attached). The
+		// stream must satisfy the same exactly-once / in-order oracle as with the recording terminals, and the console
+		// behind the real terminal must show what a fresh terminal - attached and active from the start - shows for
+		// that stream (so output handed over before the terminal could display it is visible as a difference).
 		cons := wantCons.drv.(*vfCons)
-		c2 := vfHalCase{PreLog: c.PreLog}
-		for _, d := range c.Drivers {
-			if d.Kind == 2 {
-				d = vfDrv{Kind: 1, Order: d.Order, Outcome: 0, asVT: true}
-			}
-			c2.Drivers = append(c2.Drivers, d)
-		}
-		o2 := vfHalBoot(c2)
-		var stream []byte
-		for i, in := range o2.insts {
-			if r, ok := in.drv.(*vfRecTTY); ok && c.Drivers[i].Kind == 2 && r.cons != nil {
-				stream = r.buf.Bytes() // the recorder that became the active terminal
-			}
+		stream := tt.rec.Bytes()
+		if class, desc := vfCheckStream(stream, out.pre, halTokens, insts); class != "" {
+			report(class, desc)
 		}
 		ref := tty.NewVT(4, 2)
 		refCons := &vfCons{w: cons.w, h: cons.h, cells: make([]byte, len(cons.cells))}
@@ -385,6 +377,22 @@ func vfHalRun(run *verifrt.Run, c vfHalCase) {
 		}
 		run.Distinct(fmt.Sprintf("vt early=%d n=%d %s", c.PreLog, len(wantActive), pos))
 	}
+}
+
+// vfTeeVT is the shipped terminal with a tap on its input.
+type vfTeeVT struct {
+	*tty.VT
+	rec bytes.Buffer
+}
+
+func (t *vfTeeVT) Write(p []byte) (int, error) {
+	t.rec.Write(p)
+	return t.VT.Write(p)
+}
+
+func (t *vfTeeVT) WriteByte(b byte) error {
+	t.rec.WriteByte(b)
+	return t.VT.WriteByte(b)
 }
 
 // vfCheckStream: got = suffix(pre) ++ bring-up messages ++ post
